@@ -77,6 +77,10 @@ class JobAcc:
         if isinstance(formula, bool):
             formula = z3.BoolVal(formula)
         fs = z3.simplify(formula)
+        if z3.is_true(fs) and ctx.incomplete:
+            r["unknown"] += 1
+            r["held_on_incomplete_paths"] = r.get("held_on_incomplete_paths", 0) + 1
+            return "unsat"
         if z3.is_true(fs):  # closed formula that evaluates to true: nothing to send to the solver
             r["discharged"] += 1
             r["trivial"] = r.get("trivial", 0) + 1
@@ -94,6 +98,12 @@ class JobAcc:
         r["ob_solver_s"] += dt
         r["queries"] += 1
         if res == z3.unsat:
+            if ctx.incomplete:
+                # the code under test realised a symbolic real on this path: the obligation holds for the committed value only, which is no for-all
+                # claim - counted as undischarged (DESIGN 3.1), never as discharged
+                r["unknown"] += 1
+                r["held_on_incomplete_paths"] = r.get("held_on_incomplete_paths", 0) + 1
+                return "unsat"
             r["discharged"] += 1
             return "unsat"
         if res == z3.unknown:
@@ -147,7 +157,11 @@ class JobAcc:
             r = self.r
             for name, _, _, _ in norm:
                 r["obligations"] += 1
-                r["discharged"] += 1
+                if ctx.incomplete:  # see check(): held for the committed value only
+                    r["unknown"] += 1
+                    r["held_on_incomplete_paths"] = r.get("held_on_incomplete_paths", 0) + 1
+                else:
+                    r["discharged"] += 1
                 r["ob_names"][name] = r["ob_names"].get(name, 0) + 1
             return "unsat"
         out = "unsat"
